@@ -105,6 +105,24 @@ def tool_funnel(ctx, info):
         r = subprocess.run([info["tools"]["rdsquashfs"], "-l", "a/../a", img], capture_output=True)
         if r.returncode == 0:
             problems.append(("rdsquashfs-path-dotdot", "rdsquashfs -l a/../a accepted a '..' component"))
+    # tar2sqfs: member names are canonicalised by the tar iterator; '..' members are not stored as such
+    import io
+    import tarfile
+    tp = os.path.join(d, "t.tar")
+    with tarfile.open(tp, "w", format=tarfile.USTAR_FORMAT) as tf:
+        for nm in ("./x//y/./z", "x/../../evil", "plain"):
+            ti = tarfile.TarInfo(nm)
+            ti.size = 3
+            tf.addfile(ti, io.BytesIO(b"abc"))
+    img2 = os.path.join(d, "t.sqfs")
+    r = subprocess.run([info["tools"]["tar2sqfs"], "-q", "-f", img2], stdin=open(tp, "rb"), capture_output=True)
+    if r.returncode == 0:
+        r2 = subprocess.run([info["tools"]["rdsquashfs"], "-d", img2], capture_output=True)
+        out = r2.stdout.decode()
+        if "file x/y/z " not in out:
+            problems.append(("tar-member-canon", "tar member './x//y/./z' not stored as x/y/z: " + out[:200]))
+        if "evil" in out or ".." in out:
+            problems.append(("tar-member-dotdot", "tar member with '..' component was stored: " + out[:200]))
     open(pf, "w").write("dir /a/../b 0755 0 0\n")
     r = subprocess.run([info["tools"]["gensquashfs"], "-q", "-f", "-F", pf, img], capture_output=True)
     if r.returncode == 0:
